@@ -167,7 +167,7 @@ func c19(r *core.Run) {
 		return false
 	}
 	nKeys := 0
-	for _, m := range []string{"Get", "Has", "Put", "PutInBatch", "Delete", "DeleteInBatch"} {
+	for _, m := range []string{"Get", "Has", "Put", "PutInBatch", "Delete", "DeleteInBatch", "Fill", "HasMulti"} {
 		fn := byName[shedPkg+".(Index)."+m]
 		if fn == nil {
 			r.Fatal("unresolved anchor pkg/shed.(Index).%s", m)
@@ -324,6 +324,7 @@ func c19(r *core.Run) {
 	batchStagingRules(r, "C19.B2")
 	byteWrapLint(r, "C19.L2", "pkg/shed", "pkg/shed/leveldb")
 	c19ReverseBound(r)
+	c19Iteration(r)
 }
 
 // batchStagingRules: a driver batch is "applied entirely, in order, at commit": staging an
